@@ -419,6 +419,7 @@ class Model:
         self.apply_op(ev, 'top')
 
     def ev_O(self, ev):
+        self._drop_pending_src()       # (an op inside an action may reload yyin from the buffer)
         self.apply_op(ev, 'act')
 
     def ev_W(self, ev):
@@ -723,6 +724,10 @@ class Model:
     # ---- tokens
     def ev_T(self, ev):
         self.ntok += 1
+        if self.cur() is not None and self.cur().pending_src is not None and ev.get('seq', 0) >= 0:
+            # text was still buffered when yyin was re-pointed: the assignment only matters once the scanner
+            # reads again, and by then other things may have happened; followed up only when the read comes first
+            self._drop_pending_src()
         self.in_action = True
         self.is_eof_action = False
         self.action_did_unput = False
